@@ -21,7 +21,7 @@ Fn(f, args) == [k |-> "fn", f |-> f, args |-> args]
 SAB == Str(<<97, 98>>)
 SB_ == Str(<<98>>)
 Reps == << SAB, SB_, Str(<<>>), Num(1), Num(2), Bin(<<1>>), Bin(<<1, 2>>), Bool(TRUE), Bool(FALSE), NullV,
-           Mk("L", <<SAB, Num(1)>>), Mk("M", [x |-> SAB]), Mk("SS", <<<<97, 98>>, <<99>>>>), Mk("NS", <<Num(1).n, Num(2).n>>),
+           Mk("L", <<SAB, Num(1)>>), Mk("M", [x |-> SAB]), Mk("M", [x |-> SAB, y |-> Num(1)]), Mk("SS", <<<<97, 98>>, <<99>>>>), Mk("NS", <<Num(1).n, Num(2).n>>),
            Mk("BS", <<<<1>>, <<2>>>>) >>
 RepSet == { Reps[i] : i \in DOMAIN Reps }
 \* items: attribute a absent or typed; b is always the string "ab", n the number 1 (for path-to-path comparisons)
@@ -41,6 +41,10 @@ Atoms ==
            it \in ItemsA, vw \in { <<SAB, SB_>>, <<SB_, SAB>>, <<Num(1), Num(2)>>, <<Num(2), Num(1)>>, <<Bin(<<1>>), Bin(<<1, 2>>)>>, <<Str(<<>>), SAB>> } }
   \cup { Case([k |-> "in", x |-> Path("a"), xs |-> <<Val(":v"), Val(":w")>>], it, <<>>, V2(vw[1], vw[2])) :
            it \in ItemsA, vw \in { <<SAB, Num(1)>>, <<Num(2), Bool(TRUE)>>, <<NullV, Mk("M", [x |-> SAB])>>, <<Bin(<<1>>), Mk("L", <<SAB, Num(1)>>)>> } }
+  \* BETWEEN whose bounds are attributes (mentioned nowhere else in the expression), present and missing; both bounds of one type
+  \cup { Case([k |-> "between", x |-> Path("a"), lo |-> bd[1], hi |-> bd[2]], it @@ [lo1 |-> SAB, hi1 |-> SB_, lo2 |-> Num(1), hi2 |-> Num(2)], <<>>, bd[3]) :
+           it \in ItemsA, bd \in { <<Path("lo1"), Path("hi1"), <<>>>>, <<Path("lo2"), Path("hi2"), <<>>>>, <<Path("zz"), Path("hi1"), <<>>>>, <<Path("lo1"), Path("zz"), <<>>>>,
+                                  <<Path("lo1"), Val(":v"), V1(SB_)>>, <<Val(":v"), Path("hi2"), V1(Num(1))>> } }
   \* IN lists holding attribute paths, present and missing, before and after the operand that matches
   \cup { Case([k |-> "in", x |-> Path("a"), xs |-> xs], it, <<>>, IF \E i \in DOMAIN xs : xs[i].k = "val" THEN V1(SAB) ELSE <<>>) : it \in ItemsA,
            xs \in { <<Path("b"), Val(":v")>>, <<Path("zz"), Val(":v")>>, <<Val(":v"), Path("zz")>>, <<Path("zz"), Path("b")>>, <<Path("n"), Path("zz"), Val(":v")>> } }
